@@ -69,3 +69,52 @@ def check_C26(ctx, replay=None):
                    "through the half-open path are counted until the next one",
                    "recorded finding: with state and call counter in separate atomics the bound fails when the opening thread's "
                    "counter reset lands after the next half-open episode began (replayed, reported as KNOWN-FINDING)"])
+
+
+def check_C08(ctx, replay=None):
+    quick = ctx.quick()
+    runs = []
+    for rf in (1, 2, 3):
+        cfg = core.make_cfg(ctx, "MCWatermark.cfg", RF=rf)
+        ex = run_tlc(ctx, "Watermark", cfg, workers=8, timeout=2400, xmx="10g")
+        core.require_actions(ex, ["Report", "PersistStep", "Crash", "Restart"], "watermark rf=%d" % rf)
+        _tlc_must_hold(ctx, ex, "c08:tlc-invariant")
+        runs.append(ex)
+    if not quick:
+        big = core.make_cfg(ctx, "MCWatermark.cfg", N=4, MaxRep=5)
+        exb = run_tlc(ctx, "Watermark", big, workers=12, timeout=3000, tags=(), xmx="14g")
+        _tlc_must_hold(ctx, exb, "c08:tlc-invariant")
+        dv = run_tlc(ctx, "Watermark", "MCWatermarkDev.cfg", workers=4, timeout=600, tags=(), expect_error=True)
+        if dv.ok:
+            raise core.ToolError("specification self-test failed: MCWatermarkDev.cfg (last report wins) should violate Complete")
+    sims = []
+    for rf in (1, 2, 3):
+        cfg = core.make_cfg(ctx, "MCWatermarkSim.cfg", RF=rf)
+        sims.append(run_tlc(ctx, "Watermark", cfg, workers=1, simulate=40 if quick else 700, depth=15, timeout=1200))
+        _tlc_must_hold(ctx, sims[-1], "c08:tlc-invariant")
+    # stale-count histories from the exhaustive runs (a bounded number per replication factor) + the random walks
+    cap = 150 if quick else 3000
+    for r in runs:
+        r.prints = r.prints[:: max(1, len(r.prints) // cap)][:cap]
+    plans, n = _plans(ctx, runs + sims, "watermark-plans.ndjson")
+    binary = cargo_build(ctx, "h-cluster")
+    hr = run_harness(ctx, binary, ["watermark", plans], timeout=6000)
+    for v in hr.violations:
+        add_violation(ctx, v["key"], v["detail"], v["replay"])
+    cov = {
+        "states": sum(r.distinct for r in ctx.tlc_runs), "transitions": sum(r.generated for r in ctx.tlc_runs),
+        "traces_validated_against_impl": n, "samples": hr.stats.get("samples", []),
+        "evaluations": hr.stats["evaluations"], "distinct_nontrivial": hr.stats["distinct_classes"],
+        "steps_replayed": hr.stats.get("steps_replayed"),
+        "rule": "Watermark.tla (reports in any order with duplicates and stale lower counts, the four persistence steps, crash "
+                "between any two of them, restart = load current/previous + re-report on-disk counts) is explored exhaustively for "
+                "3 versions, every target count vector, replication factors 1-3 with Monotone, Sound, Complete, RestartNoRegress. "
+                "Random walks (4 versions, 6 reports) are replayed on a real BucketConfirmationManager over a real Database: every "
+                "report first raises the event's on-disk count (set_confirmations) and then calls update_confirmation, the "
+                "watermark must be the specification's after every step; persist_bucket_state runs with hook points snapshotting "
+                "the confirmation directory between its steps, a crash restores the snapshot of that step, restart initialises a "
+                "fresh manager on it. distinct_nontrivial = (rf, crash points, persisted?) classes replayed.",
+    }
+    return finish(ctx, "model_checking", cov,
+                  ["the on-disk confirmation count of an event is at least every count reported for it (write path order: "
+                   "set_confirmations before UpdateConfirmation)"])
